@@ -160,11 +160,122 @@ def load_hints():
 NEW_HINTS = {}
 
 
+MEM_MB = int(os.environ.get('PYVC_SOLVER_MEM_MB', '3000'))
+
+
+def _init_worker():
+    """every solver process gets a memory ceiling: z3 gives up (`unknown`) instead of growing until the kernel kills it"""
+    try:
+        z3.set_param('memory_max_size', MEM_MB)
+    except Exception:
+        pass
+    try:
+        import resource
+        lim = (MEM_MB + 2500) * 1024 * 1024
+        resource.setrlimit(resource.RLIMIT_AS, (lim, lim))
+    except Exception:
+        pass
+
+
+def _run_jobs(jobs, procs, on_result, all_done, wall_limit_s):
+    """Run solver jobs in worker processes.  A worker that dies (memory, solver crash) must never hang the checker: the
+    executor reports the broken pool, the unfinished jobs are retried once in a fresh pool and then given up as `unknown`."""
+    from concurrent.futures import ProcessPoolExecutor, as_completed
+    from concurrent.futures.process import BrokenProcessPool
+    import concurrent.futures
+    ctx = multiprocessing.get_context('fork')
+    pending = list(jobs)
+    t_end = time.time() + wall_limit_s
+    if pending and not all_done():
+        ex = ProcessPoolExecutor(max_workers=max(1, min(procs, len(pending))), mp_context=ctx, initializer=_init_worker)
+        futs = {ex.submit(_stage, j): j for j in pending}
+        finished = set()
+        try:
+            for f in as_completed(futs, timeout=max(1.0, t_end - time.time())):
+                j = futs[f]
+                try:
+                    r = f.result()
+                except BrokenProcessPool:
+                    continue
+                except Exception as e:           # noqa: BLE001  (a failing solver process is never a verdict)
+                    r = (j[0], j[1], UNKNOWN, 0.0, {'reason': 'solver process failed: %r' % (e,)}, 'z3')
+                finished.add(id(j))
+                on_result(r)
+                if all_done():
+                    break
+        except concurrent.futures.TimeoutError:
+            pass
+        finally:
+            procs_ = list(getattr(ex, '_processes', {}).values())
+            ex.shutdown(wait=False, cancel_futures=True)
+            for pr in procs_:
+                try:
+                    pr.terminate()
+                except Exception:
+                    pass
+        pending = [j for j in pending if id(j) not in finished]
+    # whatever the shared pool lost (a dying worker breaks the whole pool) is re-run with one process per job, so that a
+    # job that kills its process takes nothing else with it
+    if pending and not all_done() and time.time() < t_end:
+        _run_isolated(pending, procs, on_result, all_done, t_end, ctx)
+
+
+def _isolated_main(job, conn):
+    _init_worker()
+    try:
+        conn.send(_stage(job))
+    except Exception as e:          # noqa: BLE001
+        conn.send((job[0], job[1], UNKNOWN, 0.0, {'reason': 'solver process failed: %r' % (e,)}, 'z3'))
+    finally:
+        conn.close()
+
+
+def _run_isolated(jobs, procs, on_result, all_done, t_end, ctx):
+    queue = list(jobs)
+    running = []        # (process, parent_conn, job, deadline)
+    while (queue or running) and not all_done() and time.time() < t_end:
+        while queue and len(running) < procs:
+            j = queue.pop(0)
+            a, b = ctx.Pipe(duplex=False)
+            pr = ctx.Process(target=_isolated_main, args=(j, b), daemon=True)
+            pr.start()
+            b.close()
+            running.append((pr, a, j, time.time() + j[3] / 1000.0 + 20))
+        still = []
+        for pr, conn, j, dl in running:
+            r = None
+            if conn.poll(0):
+                try:
+                    r = conn.recv()
+                except (EOFError, OSError):
+                    r = (j[0], j[1], UNKNOWN, 0.0, {'reason': 'solver process died'}, 'z3')
+            elif not pr.is_alive():
+                r = (j[0], j[1], UNKNOWN, 0.0, {'reason': 'solver process died (exit code %s)' % pr.exitcode}, 'z3')
+            elif time.time() > dl:
+                pr.terminate()
+                r = (j[0], j[1], UNKNOWN, 0.0, {'reason': 'solver process exceeded its time limit'}, 'z3')
+            if r is None:
+                still.append((pr, conn, j, dl))
+            else:
+                conn.close()
+                pr.join(timeout=1)
+                on_result(r)
+        running = still
+        time.sleep(0.02)
+    for pr, conn, j, dl in running:
+        pr.terminate()
+        if not all_done():
+            on_result((j[0], j[1], UNKNOWN, 0.0, {'reason': 'stopped: wall-clock budget of the solver stage'}, 'z3'))
+    for j in queue:
+        if not all_done():
+            on_result((j[0], j[1], UNKNOWN, 0.0, {'reason': 'not run: wall-clock budget of the solver stage'}, 'z3'))
+
+
 def discharge(obls, timeout_s=10, procs=None, use_cvc5=True, log=None):
     """-> list of result dicts in the order of obls.
     Round 1: one cheap configuration per obligation.  Round 2: every remaining configuration of every still-open
-    obligation is launched concurrently; the first proof (or full-hypothesis refutation) wins and the pool is
-    terminated once every obligation has a verdict or has exhausted its configurations."""
+    obligation is launched concurrently; the first proof (or full-hypothesis refutation) wins and the workers are
+    stopped once every obligation has a verdict or has exhausted its configurations."""
     procs = procs or min(16, os.cpu_count() or 4)
     smts = [to_smt2(ob) for ob in obls]
     verdict = {}
@@ -186,47 +297,44 @@ def discharge(obls, timeout_s=10, procs=None, use_cvc5=True, log=None):
                 jobs.append((n, sid, smts[n], budget(n), False, True))
             else:
                 jobs.append((n, 1, smts[n], min(2000, budget(n)), False, True))
+
+    def on1(r):
+        n = r[0]
+        t_spent[n] += r[3]
+        info[n] = r
+        if r[2] != UNKNOWN:
+            verdict[n] = r
     if jobs:
-        with ctx.Pool(min(procs, max(1, len(jobs)))) as pool:
-            for r in pool.imap_unordered(_stage, jobs, chunksize=1):
-                n = r[0]
-                t_spent[n] += r[3]
-                info[n] = r
-                if r[2] != UNKNOWN:
-                    verdict[n] = r
+        waves = (len(jobs) + procs - 1) // procs
+        _run_jobs(jobs, procs, on1, lambda: False, wall_limit_s=60 + waves * (timeout_s + 5))
     # round 2
     open_n = [n for n in range(len(obls)) if n not in verdict and not obls[n].expect_sat]
     if open_n:
         jobs = []
         for sid in range(len(STAGES)):
             for n in open_n:
-                if sid == 1:
-                    tmo = budget(n)         # the round-1 configuration again with the full budget
-                else:
-                    tmo = budget(n)
-                jobs.append((n, sid, smts[n], tmo, False, True))
+                jobs.append((n, sid, smts[n], budget(n), False, True))
         pending = {n: len(STAGES) for n in open_n}
-        pool = ctx.Pool(min(procs, len(jobs)))
-        try:
-            for r in pool.imap_unordered(_stage, jobs, chunksize=1):
-                n = r[0]
-                pending[n] -= 1
-                t_spent[n] = max(t_spent[n], r[3])
-                if n not in verdict:
-                    info[n] = r if r[2] != UNKNOWN or n not in info or info[n][2] == UNKNOWN else info[n]
-                    if r[2] != UNKNOWN:
-                        verdict[n] = r
-                if all((m in verdict) or pending[m] == 0 for m in open_n):
-                    break
-        finally:
-            pool.terminate()
-            pool.join()
+
+        def on2(r):
+            n = r[0]
+            pending[n] -= 1
+            t_spent[n] = max(t_spent[n], r[3])
+            if n not in verdict:
+                if r[2] != UNKNOWN or n not in info or info[n][2] == UNKNOWN:
+                    info[n] = r
+                if r[2] != UNKNOWN:
+                    verdict[n] = r
+        waves = (len(jobs) + procs - 1) // procs
+        _run_jobs(jobs, procs, on2, lambda: all((m in verdict) or pending[m] <= 0 for m in open_n),
+                  wall_limit_s=60 + waves * (timeout_s + 5))
     # cvc5 second opinion on what is still unknown (proofs only)
     still = [n for n in range(len(obls)) if n not in verdict and not obls[n].expect_sat]
     if use_cvc5 and still:
         cj = [("%d" % n, smts[n], min(timeout_s, 20), False) for n in still]
-        with ctx.Pool(min(procs, len(cj))) as pool:
-            for r in pool.imap_unordered(_check_cvc5, cj, chunksize=1):
+        from concurrent.futures import ThreadPoolExecutor     # each job only waits for the cvc5 binary (own time limit)
+        with ThreadPoolExecutor(max_workers=min(procs, len(cj))) as tp:
+            for r in tp.map(_check_cvc5, cj):
                 if r[1] == PROVED:
                     n = int(r[0])
                     verdict[n] = (n, -1, PROVED, r[2], None, 'cvc5')
